@@ -75,7 +75,9 @@ pub fn check_case(ctx: &Ctx, st: &mut Stats, c: &Case, tag: &str) {
         args.push(output.display().to_string());
     }
     st.bump(&format!("input_channel_{}", c.io));
-    let out = cli::run_fed(&ctx.bin("sudoku_gen"), &args, plan.stdin.as_deref(), &plan.feed, Some(&dir), None, Duration::from_secs(60));
+    let mut feed = plan.feed.clone();
+    feed.stdout_tty = c.io != 2 && c.puzzle.len() % 4 == 3 && !args.iter().any(|a| a == "/dev/stdout");
+    let out = cli::run_fed(&ctx.bin("sudoku_gen"), &args, plan.stdin.as_deref(), &feed, Some(&dir), None, Duration::from_secs(60));
     let text = if c.io == 2 { std::fs::read_to_string(&output).unwrap_or_default() } else { out.stdout_str() };
     let _ = std::fs::remove_dir_all(&dir);
     let case = || c.to_json();
@@ -260,8 +262,11 @@ const BLANKS: [char; 48] = ['.', '_', 'x', '-', '*', '?', 'o', '"', '·', '□',
 fn layout(rng: &mut Rng, root: usize, grid: &[usize]) -> String {
     let sq = root * root;
     let blank = *rng.pick(&BLANKS);
-    let style = rng.below(5);
+    let style = rng.below(7);
     let mut s = String::new();
+    if style == 6 && rng.chance(1, 2) {
+        s.push_str("\n\n"); // the text may start with empty lines
+    }
     for (i, g) in grid.iter().enumerate() {
         if *g == 0 {
             s.push(if rng.chance(1, 6) { *rng.pick(&BLANKS) } else { blank });
@@ -279,6 +284,15 @@ fn layout(rng: &mut Rng, root: usize, grid: &[usize]) -> String {
                 s.push(' ');
                 if (i + 1) % sq == 0 {
                     s.push_str("\r\n");
+                }
+            }
+            5 | 6 => {
+                // one row per line, an EMPTY line (or a line of blanks) between the bands, as people write it
+                if (i + 1) % sq == 0 {
+                    s.push('\n');
+                    if (i + 1) % (sq * root) == 0 {
+                        s.push_str(if style == 5 { "\n" } else { "  \n\n" });
+                    }
                 }
             }
             3 => {
@@ -467,7 +481,7 @@ pub fn run(ctx: &Ctx) -> (Stats, Spec) {
         }
     }
     let spec = Spec {
-        rule: "root 1 exhaustively; root 2: the empty puzzle (288 grids) and random hint patterns (0-16 givens taken from valid grids, contradictory patterns incl. box-only conflicts, truncated and over-long inputs, puzzle texts spread over ~30 KiB of whitespace, 5 layouts with spaces/newlines/tabs/CRLF, 8 input channels (regular file, a regular file named `-`, a regular file on stdin of which an earlier reader consumed a line, stdin at once / in small pieces, a named pipe or /dev/stdin as INPUT, file-to-file onto an existing longer file), 48 blank symbols incl. the double quote, control characters that are not whitespace (NUL, BEL, BS, ESC, DEL, U+0080, U+009F), private-use / unassigned / non-characters, a lone combining mark, punctuation, characters whose code point ends in the byte / 16-bit value of an ASCII digit (U+2031, U+2534, U+0131, U+10031, ..), format characters that are not whitespace (U+FEFF — a byte order mark when it comes first —, U+200B, U+00AD), multi-byte characters (·, □, ＿, é) and ASCII letters that are digits in a larger radix (a, b, e, g, A, F), ASCII and Unicode whitespace); root 3: puzzles with 30-60 givens derived from generated valid grids and the repository's example (exact model sets), sparse puzzles, root 4 and root 5 (one 25 x 25 board [quick], one per worker [thorough]) by structural probes (same digit twice in a unit, two digits / no digit in a cell, givens enforced, a valid grid satisfies, near-misses falsify). Exact = all models enumerated, decoded through _c_is_d and compared as a set with an independent backtracking solver. distinct = (root, normalised givens); non-trivial = at least one given and one blank.".into(),
+        rule: "root 1 exhaustively; root 2: the empty puzzle (288 grids) and random hint patterns (0-16 givens taken from valid grids, contradictory patterns incl. box-only conflicts, truncated and over-long inputs, puzzle texts spread over ~30 KiB of whitespace, 7 layouts with spaces/newlines/tabs/CRLF and empty lines between the bands or at the start, 8 input channels (regular file, a regular file named `-`, a regular file on stdin of which an earlier reader consumed a line, stdin at once / in small pieces, a named pipe or /dev/stdin as INPUT, file-to-file onto an existing longer file), 48 blank symbols incl. the double quote, control characters that are not whitespace (NUL, BEL, BS, ESC, DEL, U+0080, U+009F), private-use / unassigned / non-characters, a lone combining mark, punctuation, characters whose code point ends in the byte / 16-bit value of an ASCII digit (U+2031, U+2534, U+0131, U+10031, ..), format characters that are not whitespace (U+FEFF — a byte order mark when it comes first —, U+200B, U+00AD), multi-byte characters (·, □, ＿, é) and ASCII letters that are digits in a larger radix (a, b, e, g, A, F), ASCII and Unicode whitespace); root 3: puzzles with 30-60 givens derived from generated valid grids and the repository's example (exact model sets), sparse puzzles, root 4 and root 5 (one 25 x 25 board [quick], one per worker [thorough]) by structural probes (same digit twice in a unit, two digits / no digit in a cell, givens enforced, a valid grid satisfies, near-misses falsify). Exact = all models enumerated, decoded through _c_is_d and compared as a set with an independent backtracking solver. distinct = (root, normalised givens); non-trivial = at least one given and one blank.".into(),
         assumptions: vec![
             "givens are digits between 1 and r^2; 0 and larger digits are outside the statement's domain and are not generated".into(),
             "rsbdd itself cannot solve even the 4x4 formula within minutes, so there is no engine cross-check here".into(),
